@@ -3,6 +3,7 @@ import itertools
 import hashlib
 import os.path
 import inspect
+import types
 from importlib.machinery import SourceFileLoader
 
 
@@ -153,41 +154,58 @@ def unpack_impl(pkt, raw, offset, **k):
         # Full path for the new module
         module_pathname = os.path.join(folder, module_name + ".py")
 
-        # Try to import it first, if exists
+        # Try to import it first, if exists. Another process may be writing
+        # it right now or a previous one may have died while doing it: a
+        # module that cannot be loaded is like a module that does not exist
         module = None
         if os.path.exists(module_pathname):
-            try:
-                module = SourceFileLoader(module_name,
-                                          module_pathname).load_module()
-            except ImportError:
-                pass
+            module = self.load_generated_module(module_name, module_pathname)
 
-        # If no previously written module exists or its cooke does not match
-        # ours, recreate the file and reload it
-        if not module or getattr(
-            module, 'BISTURI_PACKET_COOKIE', None
-        ) != cookie:
+        # If no previously written module exists or it is not the code that
+        # we have just generated (its cookie does not match ours), recreate
+        # the file and reload it
+        if not self.is_the_expected_module(module, cookie):
             # Delete the compiled file (.pyc)
             if module and hasattr(module, '__cached__'):
                 module_compiled_filename = module.__cached__
             else:
                 module_compiled_filename = module_name + ".pyc"
 
-            if os.path.exists(module_compiled_filename):
-                os.remove(module_compiled_filename)
+            try:
+                if os.path.exists(module_compiled_filename):
+                    os.remove(module_compiled_filename)
+            except OSError:
+                pass  # somebody else removed it first
 
             # creates folder to host our generated code
             os.makedirs(folder, exist_ok=True)
 
-            with open(module_pathname, 'w') as module_file:
+            # Write the whole module in a private file and only then move it
+            # to its final place: nobody can see (or be left with) a half
+            # written module
+            tmp_pathname = "%s.%i.tmp" % (module_pathname, os.getpid())
+            with open(tmp_pathname, 'w') as module_file:
                 module_file.write(import_code)
                 module_file.write(cookie_code)
                 module_file.write(pack_code)
                 module_file.write(unpack_code)
 
+            os.replace(tmp_pathname, module_pathname)
+
             # load it (again)
-            module = SourceFileLoader(module_name,
-                                      module_pathname).load_module()
+            module = self.load_generated_module(module_name, module_pathname)
+
+            if not self.is_the_expected_module(module, cookie):
+                # Another process replaced the file with the code of another
+                # definition of the class in the meantime. We lose the
+                # cache but we still have our code: use it from memory.
+                module = types.ModuleType(module_name)
+                exec(
+                    compile(
+                        import_code + cookie_code + pack_code + unpack_code,
+                        module_pathname, 'exec'
+                    ), module.__dict__
+                )
 
         from bisturi.packet import Packet
         if self.generate_for_pack and (
@@ -199,6 +217,26 @@ def unpack_impl(pkt, raw, offset, **k):
             self.pkt_class.unpack_impl == Packet.unpack_impl
         ):
             self.pkt_class.unpack_impl = module.unpack_impl
+
+    def load_generated_module(self, module_name, module_pathname):
+        try:
+            return SourceFileLoader(module_name, module_pathname).load_module()
+        except Exception:
+            return None
+
+    def is_the_expected_module(self, module, cookie):
+        if not module or getattr(
+            module, 'BISTURI_PACKET_COOKIE', None
+        ) != cookie:
+            return False
+
+        if self.generate_for_pack and not hasattr(module, 'pack_impl'):
+            return False
+
+        if self.generate_for_unpack and not hasattr(module, 'unpack_impl'):
+            return False
+
+        return True
 
     def generate_unrolled_code_for_descriptor_sync(self, sync_for_pack):
         if sync_for_pack:
